@@ -200,6 +200,32 @@ def injectivity_and_resolution(_):
             out["reach"]["c20_relative_dep_resolutions"] = out["reach"].get("c20_relative_dep_resolutions", 0) + len(got)
             if got != t["deps"]:
                 out["violations"].append({"key": "C20:relative-dependency-resolved-against-wrong-directory", "msg": "%s lists %s; loaded deps %s, expected %s" % (t["id"], t["dep_strs"], got, t["deps"]), "witness": {"task": t}})
+    # the same relative spelling coming from ONE shared object (a list defined in an included file) used
+    # by COND files in different directories, all loaded by one command
+    with common.Scratch("cv20i") as sc:
+        root = os.path.join(sc.root, "p")
+        os.makedirs(root)
+        open(os.path.join(root, "cond_config.toml"), "w").write("disable_git = true\n")
+        open(os.path.join(root, "common.cond"), "w").write("COMMON_DEPS = [':prepare']\nMORE = [':prepare', ':extra']\n")
+        for pk in ("a", "b", "c/d"):
+            os.makedirs(os.path.join(root, pk))
+            open(os.path.join(root, pk, "COND"), "w").write("include('//common.cond')\nrun_command(name='prepare', run='true')\nrun_command(name='extra', run='true')\n"
+                                                           "run_command(name='main', run='true', deps=COMMON_DEPS)\nrun_command(name='main2', run='true', deps=MORE)\n")
+        open(os.path.join(root, "COND"), "w").write("group(name='top', deps=['//a:main', '//b:main', '//c/d:main', '//b:main2', '//a:main2', '//c/d:main2'])\n")
+        for order in (["//:top"], ["//b:main", "//a:main", "//:top"], ["//c/d:main2", "//:top"]):
+            idx = TaskIndex(pathlib.Path(root))
+            try:
+                for tgt in order:
+                    idx.load_transitive_closure(TaskIdentifier.from_str(tgt))
+                for pk in ("a", "b", "c/d"):
+                    for nm, want in (("main", ["//%s:prepare" % pk]), ("main2", ["//%s:prepare" % pk, "//%s:extra" % pk])):
+                        got = [str(x) for x in idx.get_task(TaskIdentifier.from_str("//%s:%s" % (pk, nm))).deps]
+                        out["reach"]["c20_relative_dep_resolutions"] = out["reach"].get("c20_relative_dep_resolutions", 0) + 1
+                        if got != want:
+                            out["violations"].append({"key": "C20:relative-dependency-resolved-against-wrong-directory", "msg": "//%s:%s takes its deps from a list shared through an included file; loaded deps %s, expected %s (load order %s)" % (pk, nm, got, want, order), "witness": {"order": order}})
+            except Exception as ex:
+                out["violations"].append({"key": "C20:relative-dependency-resolved-against-wrong-directory", "msg": "sound project with a shared deps list failed to load (%s): %s" % (order, getattr(ex, "printable_message", lambda: repr(ex))()), "witness": {"order": order}})
+    out["violations"] = out["violations"][:4]
     out["sample"] = {"output_paths_checked": out["reach"].get("c20_output_paths"), "example": sorted(seen)[:5]}
     return out
 
